@@ -773,11 +773,23 @@ func genST(rng *rand.Rand, n int) (cases []string) {
 	}
 	for i := 0; i < n; i++ {
 		sep := seps[rng.IntN(len(seps))]
+		padWith := ""
+		if rng.IntN(3) == 0 {
+			// a separator with white space of its own around a visible core (" | ", ", ", "\t=",
+			// " and "): the padding of the pieces is then the same white space, so that the
+			// separator's edges and the padding run into each other
+			ws := func() string { return pick(rng, "", " ", " ", "\t", spacesC13[rng.IntN(len(spacesC13))]) }
+			l, r := ws(), ws()
+			sep = l + pick(rng, "|", ",", "=", "and", "-", "a", "::") + r
+			padWith = pick(rng, l, r, l+r, " ")
+		}
 		var sb strings.Builder
 		blankOnly := false // every piece consists of real white space only
 		sp := func(max int) {
 			for k := rng.IntN(max + 1); k > 0; k-- {
-				if rng.IntN(12) == 0 && !blankOnly {
+				if padWith != "" && rng.IntN(4) != 0 {
+					sb.WriteString(padWith)
+				} else if rng.IntN(12) == 0 && !blankOnly {
 					sb.WriteString(nonSpacesC13[rng.IntN(len(nonSpacesC13))])
 				} else {
 					sb.WriteString(spacesC13[rng.IntN(len(spacesC13))])
